@@ -8,13 +8,28 @@ from checks import thr_scen as S
 
 
 def run(pid, tier):
+    from checks import thr_model as M
     chk = core.Check(pid, tier, "model_checking")
     bindir = T.build()
     col = S.Collector(chk)
+    # --- the model: exhaustive exploration of every interleaving of owner, thread and kernel
+    M.model_check(chk, tier)
+    if tier != "quick":
+        M.defect_variants(chk)
+    # --- B1: transition tour of the replay configurations driven through the real code
+    M.replay_tours(chk, col, bindir, tier)
+    # --- free-running / stray wake / fault injection / large histories, all judged by TLC (B2)
     S.free_running(chk, col, bindir, tier)
     S.stray_wake(chk, col, bindir, tier)
     S.faults(chk, col, bindir, tier)
     S.big_batches(chk, col, bindir, tier)
+    if tier != "quick":
+        rb = T.build(release=True)
+        M.replay_tours(chk, col, rb, "quick", tag="-release")
+        S.free_running(chk, col, rb, "quick", release=True, tag="-release")
+        S.stray_wake(chk, col, rb, "quick", release=True, tag="-release")
+        S.faults(chk, col, rb, "quick", release=True, tag="-release")
+        S.big_batches(chk, col, rb, tier, release=True, tag="-release")
     return finish(chk, col, pid)
 
 
